@@ -16,9 +16,11 @@ Import ListNotations.
 Local Open Scope Z_scope.
 
 Definition name := nat.
-(* A binder: a name together with the region of the source in which a reference to it resolves
-   to this binding (computed by the exporter from the scoping rules of the language). *)
-Definition binder := (name * span)%type.
+(* A binder: a name, the sort of construct that binds it (1 let, 2 rec let, 3 let argument,
+   4 lambda argument, 5 match alternative, 6 type, 7 constructor, 8 do) and the region of the
+   source in which a reference to the name resolves to this binding (computed by the exporter
+   from the scoping rules of the language). *)
+Record binder : Set := { bname : name; bkind : nat; bscope : span }.
 
 Inductive node : Set :=
   N (sp : span) (kind : nat) (lab : nat) (binders : list binder) (children : list node).
@@ -208,7 +210,7 @@ Fixpoint all_binders (n : node) : list binder :=
   end.
 
 Definition scope_at (t : node) (p : Z) : list name :=
-  map fst (filter (fun b : binder => contains_pos (snd b) p) (all_binders t)).
+  map bname (filter (fun b : binder => contains_pos (bscope b) p) (all_binders t)).
 
 Definition mem_nat (x : nat) (l : list nat) : bool := existsb (Nat.eqb x) l.
 
@@ -216,6 +218,24 @@ Definition mem_nat (x : nat) (l : list nat) : bool := existsb (Nat.eqb x) l.
 Definition out_of_scope (t : node) (p : Z) (extra sugg : list name) : list name :=
   let sc := scope_at t p in
   filter (fun x => negb (mem_nat x sc || mem_nat x extra)) sugg.
+
+(* For the report only: the binder of x whose scope is nearest to p, as (sort, p is before it). *)
+Definition bdist (p : Z) (b : binder) : Z :=
+  if p <? start (bscope b) then start (bscope b) - p else p - end_ (bscope b).
+Fixpoint nearest (p : Z) (best : option binder) (bs : list binder) : option binder :=
+  match bs with
+  | [] => best
+  | b :: r =>
+      match best with
+      | None => nearest p (Some b) r
+      | Some c => if bdist p b <? bdist p c then nearest p (Some b) r else nearest p best r
+      end
+  end.
+Definition nearest_binder (t : node) (p : Z) (x : name) : option (nat * bool) :=
+  match nearest p None (filter (fun b => Nat.eqb (bname b) x) (all_binders t)) with
+  | None => None
+  | Some b => Some (bkind b, p <? start (bscope b))
+  end.
 
 (* The type reported at an identifier: label 0 = the exporter recorded no checker type. *)
 Definition type_ok (r : res) (observed : nat) : bool :=
